@@ -3,7 +3,7 @@ import ScsiVerif.Props.C04d
 # C04 (continued) — Device Identification VPD page (83h), whole page
 
 Every designation descriptor inside PAGE LENGTH, in order, each with its designator decoded by type:
-vendor specific, T10 vendor ID, NAA (IEEE Extended / Locally Assigned / IEEE Registered / IEEE
+vendor specific, T10 vendor ID, EUI-64 (8-, 12- and 16-byte formats), NAA (IEEE Extended / Locally Assigned / IEEE Registered / IEEE
 Registered Extended), relative target port, target port group, logical unit group, MD5, SCSI name string.
 -/
 namespace C04
@@ -32,6 +32,9 @@ theorem naa_facts (code : Nat) :
 def desReported : Des → PDict
   | .vendor b => [("vendor_specific", .bytes b)]
   | .t10 vid rest => [("t10_vendor_id", .bytes vid), ("vendor_specific_id", .bytes rest)]
+  | .eui8 cid ext => [("ieee_company_id", .int cid), ("vendor_specific_extension_id", .bytes ext)]
+  | .eui12 cid ext dir => [("ieee_company_id", .int cid), ("vendor_specific_extension_id", .bytes ext), ("directory_id", .bytes dir)]
+  | .eui16 idext cid ext => [("identifier_extension", .bytes idext), ("ieee_company_id", .int cid), ("vendor_specific_extension_id", .bytes ext)]
   | .naa code v => reported Gen.Inquiry_naa_type_bits v ++ reported (naaTable code) v
   | .port v => reported Gen.Inquiry_relative_port_bits v
   | .tpg v => reported Gen.Inquiry_target_portal_group_bits v
@@ -42,6 +45,9 @@ def desReported : Des → PDict
 def DesOK : Des → Prop
   | .vendor _ => True
   | .t10 vid _ => vid.length = 8
+  | .eui8 cid ext => cid < 2 ^ 24 ∧ ext.length = 5
+  | .eui12 cid ext dir => cid < 2 ^ 24 ∧ ext.length = 5 ∧ dir.length = 4
+  | .eui16 idext cid ext => idext.length = 8 ∧ cid < 2 ^ 24 ∧ ext.length = 5
   | .naa code v => naaCodeOK code ∧ InRangeD (naaBlock code).rel v ∧ v "naa" = code
   | .port v => InRangeD relativePortDesignator.rel v
   | .tpg v => InRangeD targetPortGroupDesignator.rel v
@@ -67,6 +73,52 @@ theorem des_t10 (vid rest : Bytes) (hv : vid.length = 8) :
     Dec.designator 1 (vid ++ rest) = .ok [("t10_vendor_id", .bytes vid), ("vendor_specific_id", .bytes rest)] := by
   simp [Dec.designator, Des.ty, Des.bytes, desReported, DESIGNATOR_VENDOR, DESIGNATOR_T10, DESIGNATOR_EUI64, DESIGNATOR_NAA,
       DESIGNATOR_RELPORT, DESIGNATOR_TPG, DESIGNATOR_LUG, DESIGNATOR_MD5, DESIGNATOR_NAME, DESIGNATOR_PCIE, pure, Except.pure, bind, Except.bind, PDict.set, List.take_left' hv, List.drop_left' hv]
+
+/-- EUI-64, 8-byte format -/
+theorem des_eui8 (cid : Nat) (ext : Bytes) (hc : cid < 2 ^ 24) (he : ext.length = 5) :
+    Dec.designator 2 (toBytes cid 3 ++ ext) = .ok [("ieee_company_id", .int cid), ("vendor_specific_extension_id", .bytes ext)] := by
+  have hl : (toBytes cid 3 ++ ext).length = 8 := by rw [List.length_append, toBytes_length, he]
+  have h1 : slice (toBytes cid 3 ++ ext) 0 3 = toBytes cid 3 := slice_prefix _ _ 3 (toBytes_length _ _)
+  have h2 : slice (toBytes cid 3 ++ ext) 3 8 = ext := by
+    have := slice_mid (toBytes cid 3) ext [] 3 8 (toBytes_length _ _) (by omega)
+    simpa using this
+  have hb : b2i (toBytes cid 3) = cid := b2i_be cid 3 hc
+  simp [Dec.designator, DESIGNATOR_VENDOR, DESIGNATOR_T10, DESIGNATOR_EUI64, DESIGNATOR_NAA,
+      DESIGNATOR_RELPORT, DESIGNATOR_TPG, DESIGNATOR_LUG, DESIGNATOR_MD5, DESIGNATOR_NAME, DESIGNATOR_PCIE, pure, Except.pure, bind, Except.bind, PDict.set,
+      hl, h1, h2, hb]
+
+/-- EUI-64, 12-byte format -/
+theorem des_eui12 (cid : Nat) (ext dir : Bytes) (hc : cid < 2 ^ 24) (he : ext.length = 5) (hd : dir.length = 4) :
+    Dec.designator 2 (toBytes cid 3 ++ ext ++ dir) =
+      .ok [("ieee_company_id", .int cid), ("vendor_specific_extension_id", .bytes ext), ("directory_id", .bytes dir)] := by
+  have hl : (toBytes cid 3 ++ ext ++ dir).length = 12 := by rw [List.length_append, List.length_append, toBytes_length, he, hd]
+  have h1 : slice (toBytes cid 3 ++ ext ++ dir) 0 3 = toBytes cid 3 := by
+    rw [List.append_assoc]; exact slice_prefix _ _ 3 (toBytes_length _ _)
+  have h2 : slice (toBytes cid 3 ++ ext ++ dir) 3 8 = ext := slice_mid (toBytes cid 3) ext dir 3 8 (toBytes_length _ _) (by omega)
+  have h3 : (toBytes cid 3 ++ ext ++ dir).drop 8 = dir :=
+    List.drop_left' (by rw [List.length_append, toBytes_length, he])
+  have hb : b2i (toBytes cid 3) = cid := b2i_be cid 3 hc
+  generalize toBytes cid 3 ++ ext ++ dir = data at hl h1 h2 h3 ⊢
+  simp [Dec.designator, DESIGNATOR_VENDOR, DESIGNATOR_T10, DESIGNATOR_EUI64, DESIGNATOR_NAA,
+      DESIGNATOR_RELPORT, DESIGNATOR_TPG, DESIGNATOR_LUG, DESIGNATOR_MD5, DESIGNATOR_NAME, DESIGNATOR_PCIE, pure, Except.pure, bind, Except.bind, PDict.set,
+      hl, h1, h2, h3, hb]
+
+/-- EUI-64, 16-byte format -/
+theorem des_eui16 (idext : Bytes) (cid : Nat) (ext : Bytes) (hi : idext.length = 8) (hc : cid < 2 ^ 24) (he : ext.length = 5) :
+    Dec.designator 2 (idext ++ toBytes cid 3 ++ ext) =
+      .ok [("identifier_extension", .bytes idext), ("ieee_company_id", .int cid), ("vendor_specific_extension_id", .bytes ext)] := by
+  have hl : (idext ++ toBytes cid 3 ++ ext).length = 16 := by rw [List.length_append, List.length_append, toBytes_length, he, hi]
+  have h1 : (idext ++ toBytes cid 3 ++ ext).take 8 = idext := by
+    rw [List.append_assoc]; exact List.take_left' hi
+  have h2 : slice (idext ++ toBytes cid 3 ++ ext) 8 11 = toBytes cid 3 :=
+    slice_mid idext (toBytes cid 3) ext 8 11 hi (by rw [toBytes_length])
+  have h3 : (idext ++ toBytes cid 3 ++ ext).drop 11 = ext :=
+    List.drop_left' (by rw [List.length_append, toBytes_length, hi])
+  have hb : b2i (toBytes cid 3) = cid := b2i_be cid 3 hc
+  generalize idext ++ toBytes cid 3 ++ ext = data at hl h1 h2 h3 ⊢
+  simp [Dec.designator, DESIGNATOR_VENDOR, DESIGNATOR_T10, DESIGNATOR_EUI64, DESIGNATOR_NAA,
+      DESIGNATOR_RELPORT, DESIGNATOR_TPG, DESIGNATOR_LUG, DESIGNATOR_MD5, DESIGNATOR_NAME, DESIGNATOR_PCIE, pure, Except.pure, bind, Except.bind, PDict.set,
+      hl, h1, h2, h3, hb]
 
 theorem des_md5 (b : Bytes) (hb : b.length = 16) : Dec.designator 7 b = .ok [("md5_logical_identifier", .bytes b)] := by
   have ht : b.take 16 = b := List.take_of_length_le (by omega)
@@ -136,6 +188,9 @@ theorem designator_std (d : Des) (h : DesOK d) : Dec.designator d.ty d.bytes = .
   cases d with
   | vendor b => exact des_vendor b
   | t10 vid rest => exact des_t10 vid rest h
+  | eui8 cid ext => exact des_eui8 cid ext h.1 h.2
+  | eui12 cid ext dir => exact des_eui12 cid ext dir h.1 h.2.1 h.2.2
+  | eui16 idext cid ext => exact des_eui16 idext cid ext h.1 h.2.1 h.2.2
   | md5 b => exact des_md5 b h
   | name b => exact des_name b
   | port v => exact des_port v h
